@@ -286,8 +286,8 @@ Section Suc.
               SucE (fst (match f m (clear_flags s) with
                          | (Ok None, s') => (s', ROk None (my_msg_id_reset (co s')))
                          | (Ok (Some (e, ps)), s') => (s', ROk (Some (e, body_of e ps)) (my_msg_id_reset (co s')))
-                         | (Raise _, s') => (s', RErr)
-                         | (Stuck, s') => (stuck_state s', RErr)
+                         | (Raise _, s') => (s', RErr (my_msg_id_reset (co s')))
+                         | (Stuck, s') => (stuck_state s', RErr false)
                          end))).
     { intros f Hf. pose proof (Hf (clear_flags s)) as Heq. unfold ob_new in Heq.
       destruct (f m (clear_flags s)) as [[[[x ps]|]|e|] s']; cbn in *; eapply SucE_eq; try eassumption; exact Heq. }
@@ -424,6 +424,15 @@ Section ShellLevel.
     destruct r as [[x b]|]; cbn; split; assumption.
   Qed.
 
+  (** the stuck marker survives process_trigger: a result that does not carry it came from a call that was not Stuck *)
+  Lemma trig_ok_of_nst (s : sa) now e : nst (inner P (fst (process_trigger P s now e))) -> trig_ok s e.
+  Proof.
+    unfold trig_ok, process_trigger.
+    destruct (if ev_is_acquire P e then acquire_must_queue (state P s) else expire_must_queue (state P s)); [trivial|].
+    change (handle_trigger P (inner P s) e) with (h_trigger (inner P s) e).
+    destruct (h_trigger (inner P s) e) as [i' r]. cbn [fst]. destruct r as [[x b]|]; cbn; auto.
+  Qed.
+
   Lemma run_pending_tr evs now : forall s : sa,
     pend_ok evs s now ->
     SilA (inner P s) (inner P (fst (run_pending P evs s now)))
@@ -452,7 +461,7 @@ Section ShellLevel.
     intros [Hn Hp]. pose proof (h_response_shape E (inner P s) m Hn) as Ht.
     pose proof (h_response_suc E (inner P s) m) as Hs.
     destruct (h_response E (inner P s) m) as [i' out]. cbn [fst snd] in *.
-    destruct out as [[[x body]|] reset|].
+    destruct out as [[[x body]|] reset|reset].
     - assert (Hk : SucE (inner P s) -> SucK i').
       { intros H0. destruct (Hs H0) as [H|(x' & r' & _ & H)]; [apply SucE_K; exact H|].
         intros n Hn'. right. left. exact H. }
@@ -466,9 +475,9 @@ Section ShellLevel.
       + destruct (run_pending_tr (pending P s2) now s2 Hp) as [H3 H4]. rewrite H2 in *.
         split; [eapply Trans_trans; [exact Ht|apply Trans_sila; exact H3]|]. intros H0. apply SucE_K. auto.
       + cbn [fst]. rewrite H2. split; [exact Ht|]. intros H0. apply SucE_K. auto.
-    - cbn. split; [eapply Trans_trans; [exact Ht|apply mark_deleted_trans]|].
-      intros H0. destruct (Hs H0) as [H|(x' & r' & H & _)]; [|discriminate H].
-      apply SucE_K. eapply SucE_eq; [|exact H]. reflexivity.
+    - destruct reset; cbn; (split; [eapply Trans_trans; [exact Ht|apply mark_deleted_trans]|]);
+        intros H0; (destruct (Hs H0) as [H|(x' & r' & H & _)]; [|discriminate H]);
+        apply SucE_K; (eapply SucE_eq; [|exact H]); reflexivity.
   Qed.
 
   Lemma process_message_tr (s : sa) m now :
@@ -583,7 +592,8 @@ Section Table.
   Definition TInv (t : list (nat * esa)) (nc : nat) (sd : sad) : Prop :=
     NoDup sd /\ same_elts sd (tkeys t) /\ NoDup (tkeys t)
     /\ (forall c s, In (c, s) t -> WF (inner P s))
-    /\ NoDup (map fst t) /\ (forall c, In c (map fst t) -> (c < nc)%nat).
+    /\ NoDup (map fst t) /\ (forall c, In c (map fst t) -> (c < nc)%nat)
+    /\ (forall c s, In (c, s) t -> Spi4 (inner P s)).
   Definition AllE (t : list (nat * esa)) : Prop := forall c s, In (c, s) t -> EW (inner P s).
   (** the invariant of the endpoint: the kernel SAD is the set of keys of all CHILD_SAs of all table entries *)
   Definition EInv (ep : endpoint E) (sd : sad) : Prop :=
@@ -597,6 +607,17 @@ Section Table.
   Proof. intros [A B] H n Hn. rewrite B in Hn. rewrite A. apply (H n Hn). Qed.
   Lemma same_core_EW i j : same_core i j -> EW i -> EW j.
   Proof. intros [A B] H n Hn. rewrite B in Hn. rewrite A. apply (H n Hn). Qed.
+  Lemma same_core_Spi4 i j : same_core i j -> Spi4 i -> Spi4 j.
+  Proof. intros [A B] [H1 H2]. unfold Spi4. rewrite A, B. auto. Qed.
+  Lemma tracked_nil_Spi4 i : tracked i = [] -> Spi4 i.
+  Proof.
+    unfold tracked. intros H. apply app_eq_nil in H. destruct H as [H1 H2].
+    assert (Hk : forall c l, keys_of c l = [] -> l = []).
+    { intros c l Hl. destruct l as [|x r]; [reflexivity|discriminate Hl]. }
+    split.
+    - unfold tracked_keys in H1. rewrite (Hk _ _ H1). constructor.
+    - intros n Hn. rewrite Hn in H2. cbn in H2. unfold tracked_keys in H2. rewrite (Hk _ _ H2). constructor.
+  Qed.
 
   Lemma tkeys_app t1 t2 : tkeys (t1 ++ t2) = tkeys t1 ++ tkeys t2.
   Proof. unfold tkeys. apply flat_map_app. Qed.
@@ -642,7 +663,7 @@ Section Table.
     faithful_run sd (kops i') ->
     TInv (replace E t c s') nc (apply_kops sd (kops i')).
   Proof.
-    intros (Hnd & Hse & Hnt & Hwf & Hnc & Hlt) Hin Hc0 Hk Ht Hc' Hf.
+    intros (Hnd & Hse & Hnt & Hwf & Hnc & Hlt & Hsp) Hin Hc0 Hk Ht Hc' Hf.
     destruct (table_split t c s Hin Hnc) as (t1 & t2 & -> & Hn1 & Hn2).
     rewrite (replace_split t1 t2 c s s' Hn1).
     rewrite tkeys_app in *. cbn [tkeys flat_map] in *. fold (tkeys t2) in *. cbn [snd] in *.
@@ -677,7 +698,13 @@ Section Table.
       - eapply Hwf. apply in_or_app. right. right. exact Hin0. }
     split.
     { rewrite map_app in *. exact Hnc. }
-    intros c0 Hc0'. apply Hlt. rewrite map_app in *. exact Hc0'.
+    split.
+    { intros c0 Hc0'. apply Hlt. rewrite map_app in *. exact Hc0'. }
+    intros c0 s0 Hin0. apply in_app_or in Hin0. destruct Hin0 as [Hin0|[Heq|Hin0]].
+    - eapply Hsp. apply in_or_app. left. exact Hin0.
+    - injection Heq as <- <-. eapply same_core_Spi4; [exact Hc'|]. eapply trans_spi4; [exact Ht|].
+      eapply same_core_Spi4; [exact Hc0|]. eapply Hsp. apply in_or_app. right. left. reflexivity.
+    - eapply Hsp. apply in_or_app. right. right. exact Hin0.
   Qed.
 End Table.
 
@@ -690,7 +717,7 @@ Section Table2.
   Lemma tinv_append t nc sd (s : esa) :
     TInv E t nc sd -> tracked (inner P s) = [] -> WF (inner P s) -> TInv E (t ++ [(nc, s)]) (S nc) sd.
   Proof.
-    intros (Hnd & Hse & Hnt & Hwf & Hnc & Hlt) Htr Hw. unfold TInv.
+    intros (Hnd & Hse & Hnt & Hwf & Hnc & Hlt & Hsp) Htr Hw. unfold TInv.
     rewrite tkeys_app. cbn. rewrite Htr. cbn. rewrite app_nil_r.
     split; [exact Hnd|]. split; [exact Hse|]. split; [exact Hnt|]. split.
     { intros c0 s0 Hin. apply in_app_or in Hin. destruct Hin as [Hin|[Heq|[]]]; [eapply Hwf; exact Hin|].
@@ -698,7 +725,10 @@ Section Table2.
     split.
     { rewrite map_app. cbn. apply NoDup_app_intro; [exact Hnc|constructor; [intros []|constructor]|].
       intros x Hx [<-|[]]. apply Hlt in Hx. exact (Nat.lt_irrefl _ Hx). }
-    intros c0 Hc0. rewrite map_app in Hc0. apply in_app_or in Hc0. destruct Hc0 as [H|[<-|[]]]; [apply Hlt in H; apply Nat.lt_lt_succ_r; exact H|apply Nat.lt_succ_diag_r].
+    split.
+    { intros c0 Hc0. rewrite map_app in Hc0. apply in_app_or in Hc0. destruct Hc0 as [H|[<-|[]]]; [apply Hlt in H; apply Nat.lt_lt_succ_r; exact H|apply Nat.lt_succ_diag_r]. }
+    intros c0 s0 Hin. apply in_app_or in Hin. destruct Hin as [Hin|[Heq|[]]]; [eapply Hsp; exact Hin|].
+    injection Heq as <- <-. apply tracked_nil_Spi4. exact Htr.
   Qed.
 
   (** the controller registers the successor of the entry [(c, s)] *)
@@ -707,7 +737,8 @@ Section Table2.
     co (inner P s') = co (inner P s) -> new_sa (inner P s') = None ->
     TInv E (Endpoint.replace E t c s' ++ [(nc, sa_of_core E n)]) (S nc) sd.
   Proof.
-    intros (Hnd & Hse & Hnt & Hwf & Hnc & Hlt) Hin Hn Hco Hnone.
+    intros (Hnd & Hse & Hnt & Hwf & Hnc & Hlt & Hsp) Hin Hn Hco Hnone.
+    pose proof (Hsp c s Hin) as [Hsp1 Hsp2].
     destruct (table_split E t c s Hin Hnc) as (t1 & t2 & -> & Hn1 & Hn2).
     rewrite (replace_split E t1 t2 c s s' Hn1).
     destruct (Hwf c s Hin) with (n := n) as (W1 & W2 & _); [exact Hn|].
@@ -733,8 +764,15 @@ Section Table2.
     split.
     { rewrite map_app, Hfst. cbn. apply NoDup_app_intro; [exact Hnc|constructor; [intros []|constructor]|].
       intros x Hx [<-|[]]. apply Hlt in Hx. exact (Nat.lt_irrefl _ Hx). }
-    intros c0 Hc0. rewrite map_app, Hfst in Hc0. apply in_app_or in Hc0.
-    destruct Hc0 as [H|[<-|[]]]; [apply Hlt in H; apply Nat.lt_lt_succ_r; exact H|apply Nat.lt_succ_diag_r].
+    split.
+    { intros c0 Hc0. rewrite map_app, Hfst in Hc0. apply in_app_or in Hc0.
+      destruct Hc0 as [H|[<-|[]]]; [apply Hlt in H; apply Nat.lt_lt_succ_r; exact H|apply Nat.lt_succ_diag_r]. }
+    intros c0 s0 Hin0. apply in_app_or in Hin0. destruct Hin0 as [Hin0|[Heq|[]]].
+    - apply in_app_or in Hin0. destruct Hin0 as [Hin0|[Heq|Hin0]].
+      + eapply Hsp. apply in_or_app. left. exact Hin0.
+      + injection Heq as <- <-. split; [rewrite Hco; exact Hsp1|]. intros n0 Hn0. rewrite Hnone in Hn0. discriminate Hn0.
+      + eapply Hsp. apply in_or_app. right. right. exact Hin0.
+    - injection Heq as <- <-. split; [cbn; exact (Hsp2 n Hn)|]. intros n0 Hn0. discriminate Hn0.
   Qed.
 
   (** delete_child_sas on the entry [(c, s)], then its removal *)
@@ -744,7 +782,9 @@ Section Table2.
     faithful_run sd (kops (snd (delete_child_sas i0))) ->
     TInv E (remove_cid E t c) nc (apply_kops sd (kops (snd (delete_child_sas i0)))).
   Proof.
-    intros (Hnd & Hse & Hnt & Hwf & Hnc & Hlt) Hin Hew Hc0 Hk Hns Hf.
+    intros (Hnd & Hse & Hnt & Hwf & Hnc & Hlt & Hsp) Hin Hew Hc0 Hk Hns Hf.
+    assert (H4 : Forall spi4 (children (co i0))).
+    { destruct Hc0 as [Hco _]. rewrite Hco. exact (proj1 (Hsp c s Hin)). }
     destruct (table_split E t c s Hin Hnc) as (t1 & t2 & -> & Hn1 & Hn2).
     rewrite (remove_split E t1 t2 c s Hn1).
     rewrite tkeys_mid in *. set (own := tracked (inner P s)) in *. set (T1 := tkeys E t1) in *. set (T2 := tkeys E t2) in *.
@@ -756,14 +796,14 @@ Section Table2.
     assert (Hse0 : same_elts sd (own ++ T1 ++ T2)).
     { eapply same_elts_trans; [exact Hse|]. apply same_elts_perm. exact Hperm. }
     pose proof (faithful_run_same _ _ _ Hse0 Hf) as Hf0.
-    destruct (teardown_inv i0 own (T1 ++ T2) Hinv Hk Hns Hf0) as (Hfr & _ & Hch & (I1 & I2 & I3) & _).
+    destruct (teardown_inv i0 own (T1 ++ T2) H4 Hinv Hk Hns Hf0) as (Hfr & _ & Hch & (I1 & I2 & I3) & _).
     assert (Hsucc : succ_keys (new_sa i0) = []).
     { destruct Hc0 as [_ Hn0]. rewrite Hn0. destruct (new_sa (inner P s)) as [n|] eqn:En; [|reflexivity].
       destruct (Hew n En) as (_ & _ & C). cbn. unfold tracked_keys. rewrite C. reflexivity. }
     assert (Hempty : sad_minus own (tracked_keys (co i0)) = []).
     { destruct (sad_minus own (tracked_keys (co i0))) as [|k r] eqn:Em; [reflexivity|]. exfalso.
       assert (Hk' : In k (tracked (snd (delete_child_sas i0)))) by (apply I2; left; reflexivity).
-      destruct (teardown_general i0 (own ++ T1 ++ T2) Hk Hns Hf0) as (_ & _ & G3 & G4 & _).
+      destruct (teardown_general i0 (own ++ T1 ++ T2) H4 Hk Hns Hf0) as (_ & _ & G3 & G4 & _).
       unfold tracked, tracked_keys in Hk'. rewrite G3, G4, Hsucc in Hk'. exact Hk'. }
     rewrite Hempty in *. cbn [app] in *.
     unfold TInv. rewrite tkeys_app. fold T1 T2.
@@ -775,7 +815,10 @@ Section Table2.
     rewrite map_app in *. cbn in Hnc, Hlt. split.
     { apply NoDup_app_intro; [apply NoDup_app_l in Hnc; exact Hnc|apply NoDup_app_r in Hnc; inversion Hnc; assumption|].
       intros x Hx Hx2. apply (NoDup_app_disj _ _ x Hnc Hx). right. exact Hx2. }
-    intros c0 Hc0'. apply Hlt. apply in_app_or in Hc0'. apply in_or_app. destruct Hc0' as [H|H]; [left|right; right]; exact H.
+    split.
+    { intros c0 Hc0'. apply Hlt. apply in_app_or in Hc0'. apply in_or_app. destruct Hc0' as [H|H]; [left|right; right]; exact H. }
+    intros c0 s0 Hin0. apply in_app_or in Hin0. destruct Hin0 as [Hin0|Hin0]; eapply Hsp; apply in_or_app;
+      [left|right; right]; exact Hin0.
   Qed.
 End Table2.
 
@@ -787,7 +830,7 @@ Section Table3.
   Lemma tinv_remove_empty t nc sd c (s : esa) :
     TInv E t nc sd -> In (c, s) t -> tracked (inner P s) = [] -> TInv E (remove_cid E t c) nc sd.
   Proof.
-    intros (Hnd & Hse & Hnt & Hwf & Hnc & Hlt) Hin Htr.
+    intros (Hnd & Hse & Hnt & Hwf & Hnc & Hlt & Hsp) Hin Htr.
     destruct (table_split E t c s Hin Hnc) as (t1 & t2 & -> & Hn1 & Hn2).
     rewrite (remove_split E t1 t2 c s Hn1). rewrite tkeys_mid, Htr in *. cbn [app] in *.
     unfold TInv. rewrite tkeys_app.
@@ -797,7 +840,10 @@ Section Table3.
     rewrite map_app in *. cbn in Hnc, Hlt. split.
     { apply NoDup_app_intro; [apply NoDup_app_l in Hnc; exact Hnc|apply NoDup_app_r in Hnc; inversion Hnc; assumption|].
       intros x Hx Hx2. apply (NoDup_app_disj _ _ x Hnc Hx). right. exact Hx2. }
-    intros c0 Hc0'. apply Hlt. apply in_app_or in Hc0'. apply in_or_app. destruct Hc0' as [H|H]; [left|right; right]; exact H.
+    split.
+    { intros c0 Hc0'. apply Hlt. apply in_app_or in Hc0'. apply in_or_app. destruct Hc0' as [H|H]; [left|right; right]; exact H. }
+    intros c0 s0 Hin0. apply in_app_or in Hin0. destruct Hin0 as [Hin0|Hin0]; eapply Hsp; apply in_or_app;
+      [left|right; right]; exact Hin0.
   Qed.
 End Table3.
 
@@ -839,7 +885,7 @@ Section Fresh.
       destruct (h_response E (inner P s) m) as [i' out]. cbn [fst] in Ho.
       destruct Ho as [(_ & Ho & _)|Ho]; [rewrite Hi in Ho; discriminate Ho|].
       pose proof (nochange_Same3 _ _ Ho) as Hs. destruct Ho as (_ & _ & _ & Hlt).
-      destruct out as [[[x body]|] reset'|]; [destruct reset'; exact Hs| |cbn; exact Hs].
+      destruct out as [[[x body]|] reset'|reset']; [destruct reset'; exact Hs| |destruct reset'; cbn; exact Hs].
       set (s2 := if reset' then _ else _).
       assert (H2 : inner P s2 = i') by (unfold s2; destruct reset'; reflexivity).
       assert (Hne : Z.eqb (state P s2) ST_ESTABLISHED = false).
@@ -1163,24 +1209,36 @@ Section Controller.
               | None => None
               end
     end.
+  (** the IkeSa that was created for this ACQUIRE: if the trigger started nothing (unknown policy index: it is still
+      INITIAL) it is removed from the table again (/repo fix f21), otherwise it is kept like any other entry *)
+  Definition acquire_fresh (ep0 : endpoint) (cid : nat) (s : esa) (a b : ts) (i : Z) : endpoint :=
+    let r := process_trigger P (enter ep0 s) (ep_now E ep0) (E_acquire a b i) in
+    if acquire_drop_unstarted (state P (snd (leave ep0 (fst r))))
+    then send (with_table (fst (leave ep0 (fst r))) (remove_cid E (table (fst (leave ep0 (fst r)))) cid)) (snd r)
+    else do_call ep0 cid r.
   Lemma acquire_eq ep my peer a b i :
     acquire E ep my peer a b i =
-    match acquire_target ep my peer with
-    | None => ep
-    | Some (ep0, cid, s) => do_call ep0 cid (process_trigger P (enter ep0 s) (ep_now E ep0) (E_acquire a b i))
+    match find (fun x => Z.eqb (my_addr (co (inner P (snd x)))) my && Z.eqb (peer_addr (co (inner P (snd x)))) peer)
+               (table ep) with
+    | Some (cid, s) => do_call ep cid (process_trigger P (enter ep s) (ep_now E ep) (E_acquire a b i))
+    | None => match find_conf E ep my peer with
+              | Some c => match create E ep true (repeat 0%N 8) c my peer with
+                          | Some (ep0, cid, s) => acquire_fresh ep0 cid s a b i
+                          | None => ep
+                          end
+              | None => ep
+              end
     end.
   Proof.
-    assert (Hstep : forall ep0 cid (s : esa),
-              (let '(s2, reply) := process_trigger P (enter ep0 s) (ep_now E ep0) (E_acquire a b i) in
-               let '(ep2, s3) := leave ep0 s2 in
-               send (set (Endpoint.table E) (fun _ => replace (table ep2) cid s3) ep2) reply)
-              = do_call ep0 cid (process_trigger P (enter ep0 s) (ep_now E ep0) (E_acquire a b i))).
-    { intros ep0 cid s. destruct (process_trigger P (enter ep0 s) (ep_now E ep0) (E_acquire a b i)) as [s2 reply].
-      unfold do_call, put. cbn [fst snd]. destruct (leave ep0 s2) as [ep2 s3]. reflexivity. }
-    unfold acquire, acquire_target.
-    match goal with |- context [find ?f (table ep)] => destruct (find f (table ep)) as [[cid s]|] end; [apply Hstep|].
-    destruct (find_conf E ep my peer) as [c|]; [|reflexivity].
-    destruct (create E ep true (repeat 0%N 8) c my peer) as [[[ep0 cid] s]|]; [apply Hstep|reflexivity].
+    unfold acquire, acquire_fresh.
+    match goal with |- context [find ?f (table ep)] => destruct (find f (table ep)) as [[cid s]|] end; cbv zeta.
+    - destruct (process_trigger P (enter ep s) (ep_now E ep) (E_acquire a b i)) as [s2 reply].
+      unfold do_call, put. cbn [fst snd andb]. destruct (leave ep s2) as [ep2 s3]. reflexivity.
+    - destruct (find_conf E ep my peer) as [c|]; [|reflexivity].
+      destruct (create E ep true (repeat 0%N 8) c my peer) as [[[ep0 cid] s]|]; [|reflexivity].
+      destruct (process_trigger P (enter ep0 s) (ep_now E ep0) (E_acquire a b i)) as [s2 reply].
+      unfold do_call, put. cbn [fst snd andb]. destruct (leave ep0 s2) as [ep2 s3]. cbn [fst snd].
+      destruct (acquire_drop_unstarted (state P s3)); reflexivity.
   Qed.
   Definition acquire_ok (ep : endpoint) (my peer : Z) (a b : ts) (i : Z) : Prop :=
     match acquire_target ep my peer with
@@ -1210,8 +1268,32 @@ Section Controller.
     - destruct (find_conf E ep my peer) as [c|]; [|split; [exact Hg|apply extends_refl]].
       destruct (create E ep true (repeat 0%N 8) c my peer) as [[[ep0 cid] s]|] eqn:Ec; [|split; [exact Hg|apply extends_refl]].
       destruct (eg_create _ _ _ _ _ _ _ _ _ Ec Hg) as (G0 & X0 & I0).
-      destruct (eg_trigger ep0 cid s (E_acquire a b i) G0 I0 Hok) as [G1 X1].
-      split; [exact G1|eapply extends_trans; eassumption].
+      unfold acquire_fresh. cbv zeta.
+      set (r := process_trigger P (enter ep0 s) (ep_now E ep0) (E_acquire a b i)) in *.
+      destruct (acquire_drop_unstarted (state P (snd (leave ep0 (fst r))))).
+      2:{ destruct (eg_trigger ep0 cid s (E_acquire a b i) G0 I0 Hok) as [G1 X1].
+          split; [exact G1|eapply extends_trans; eassumption]. }
+      (* the trigger started nothing: no kernel operation (no trigger issues any), and the entry that is dropped is
+         the one just created, which tracks nothing *)
+      destruct (process_trigger_tr E (enter ep0 s) (ep_now E ep0) (E_acquire a b i) Hok) as [[(K1 & _) _] _]. fold r in K1.
+      destruct (create_facts _ _ _ _ _ _ _ _ _ Ec) as (_ & _ & _ & _ & Hch & Hnew & _).
+      destruct (enter_core ep0 s) as [_ C2]. rewrite C2 in K1.
+      destruct (leave_facts ep0 (fst r)) as (_ & L2 & L3 & L4 & _). rewrite K1, app_nil_r in L2.
+      set (ep2 := fst (leave ep0 (fst r))) in *.
+      destruct (send_facts (with_table ep2 (remove_cid E (table ep2) cid)) (snd r)) as (S1 & S2 & S3 & _).
+      destruct G0 as (G & A & C).
+      split; [|eapply extends_trans; [exact X0|]; exists []; rewrite app_nil_r; etransitivity; [exact S3|exact L2]].
+      split; [|split].
+      + eapply TG_ext; [exact S1|exact S2|exact S3|]. unfold TG. intros Hf.
+        change (TInv E (remove_cid E (table ep2) cid) (next_cid ep2) (apply_kops sd0 (ep_kops ep2))).
+        change (faithful_run sd0 (ep_kops ep2)) in Hf. rewrite L2 in *. rewrite L3, L4.
+        eapply tinv_remove_empty; [apply G; exact Hf|exact I0|].
+        unfold tracked, tracked_keys. rewrite Hch, Hnew. reflexivity.
+      + rewrite S1. change (table (with_table ep2 (remove_cid E (table ep2) cid))) with (remove_cid E (table ep2) cid).
+        rewrite L3. apply AllE_remove. exact A.
+      + rewrite S1, S2. change (table (with_table ep2 (remove_cid E (table ep2) cid))) with (remove_cid E (table ep2) cid).
+        change (next_cid (with_table ep2 (remove_cid E (table ep2) cid))) with (next_cid ep2).
+        rewrite L3, L4. apply cidok_remove. exact C.
   Qed.
 
   Lemma expire_eq ep spi hard :
@@ -1603,7 +1685,7 @@ Section Whole.
   Proof.
     intros [Ht Ha] Hok Hf.
     assert (Hg : EG E sd (start E ep tnow tp)).
-    { split; [intros _; exact Ht|]. split; [exact Ha|]. destruct Ht as (_ & _ & _ & _ & H1 & H2). split; assumption. }
+    { split; [intros _; exact Ht|]. split; [exact Ha|]. destruct Ht as (_ & _ & _ & _ & H1 & H2 & _). split; assumption. }
     destruct (eg_iteration E sd ep tnow tp e Hg Hok) as (G1 & G2 & _).
     split; [apply G1; exact Hf|exact G2].
   Qed.
@@ -1646,7 +1728,7 @@ Section Whole.
   Proof.
     split; [|intros c0 s []]. unfold TInv. cbn.
     split; [constructor|]. split; [intros k; tauto|]. split; [constructor|]. split; [intros c0 s []|].
-    split; [constructor|intros c0 []].
+    split; [constructor|]. split; [intros c0 []|intros c0 s []].
   Qed.
 
   (** after EVERY prefix of EVERY history from the empty table the kernel SAD is exactly the set of keys of the
@@ -1671,7 +1753,7 @@ Section TableClauses.
   (** (a) creation indices are unique and below [next_cid] (part of the invariant) *)
   Theorem cids_unique (ep : endpoint) sd :
     EInv E ep sd -> NoDup (map fst (table E ep)) /\ forall c, In c (map fst (table E ep)) -> (c < next_cid E ep)%nat.
-  Proof. intros [(_ & _ & _ & _ & H1 & H2) _]. split; assumption. Qed.
+  Proof. intros [(_ & _ & _ & _ & H1 & H2 & _) _]. split; assumption. Qed.
 
   (** (d) what the dispatcher ignores: a datagram that is not an IKE message, an IKE_SA_INIT request from an
       unconfigured pair of addresses, a message for an unknown SPI - the endpoint is literally unchanged; a message
@@ -1798,6 +1880,48 @@ Section TableClauses.
       rewrite L2, K1. cbn. rewrite app_nil_r. exact Hk.
     - unfold send, leave. destruct (rek_push (inner P (fst r))); destruct (snd r); cbn; unfold create in H3;
         destruct (new_core false _ _ _) as [[nc|e|] i1]; try discriminate H3; injection H3 as <- _ _; reflexivity.
+  Qed.
+  (** the same for an ACQUIRE (/repo fix f21): the initiator IkeSa that was created for it and is still INITIAL after
+      the trigger (unknown policy index: nothing was started) leaves the table as it was, no kernel operation was
+      issued, and whatever process_trigger returned (nothing) is what is sent *)
+  Theorem unstarted_acquire_leaves_nothing (ep : endpoint) my peer tsi tsr index c ep0 cid (s0 : esa) :
+    (forall x, In x (map fst (table E ep)) -> (x < next_cid E ep)%nat) ->
+    find (fun x : nat * esa => Z.eqb (my_addr (co (inner P (snd x)))) my && Z.eqb (peer_addr (co (inner P (snd x)))) peer)
+         (table E ep) = None ->
+    find_conf E ep my peer = Some c ->
+    create E ep true (repeat 0%N 8) c my peer = Some (ep0, cid, s0) ->
+    let r := process_trigger P (enter E ep0 s0) (ep_now E ep0) (E_acquire tsi tsr index) in
+    state P (fst r) = ST_INITIAL ->
+    table E (acquire E ep my peer tsi tsr index) = table E ep
+    /\ ep_kops E (acquire E ep my peer tsi tsr index) = ep_kops E ep
+    /\ ep_sent E (acquire E ep my peer tsi tsr index) = ep_sent E (send E ep (snd r)).
+  Proof.
+    intros Hlt H1 H2 H3 r Hst. rewrite acquire_eq.
+    match goal with |- context [find ?f ?l] => assert (Hx : find f l = None) by exact H1; rewrite Hx end.
+    rewrite H2, H3. unfold acquire_fresh. cbv zeta. fold r.
+    destruct (create_facts E _ _ _ _ _ _ _ _ _ H3) as (A & B & _ & Hk & _ & _ & _).
+    destruct (leave_facts E ep0 (fst r)) as ([L0 _] & L2 & L3 & _).
+    assert (Hs3 : acquire_drop_unstarted (state P (snd (leave E ep0 (fst r)))) = true).
+    { unfold acquire_drop_unstarted.
+      change (state P (snd (leave E ep0 (fst r)))) with (st (co (inner P (snd (leave E ep0 (fst r)))))).
+      rewrite L0. change (st (co (inner P (fst r)))) with (state P (fst r)). rewrite Hst. reflexivity. }
+    rewrite Hs3.
+    assert (Hn : nst (inner P (fst r))).
+    { unfold nst. change (st (co (inner P (fst r)))) with (state P (fst r)). rewrite Hst. discriminate. }
+    destruct (process_trigger_tr E (enter E ep0 s0) (ep_now E ep0) (E_acquire tsi tsr index)
+                (trig_ok_of_nst E _ _ _ Hn)) as [[(K1 & _) _] _]. fold r in K1.
+    destruct (enter_core E ep0 s0) as [_ C2]. rewrite C2 in K1.
+    destruct (send_facts E (with_table E (fst (leave E ep0 (fst r))) (remove_cid E (table E (fst (leave E ep0 (fst r)))) cid)) (snd r))
+      as (S1 & _ & S3 & _).
+    split; [|split].
+    - rewrite S1. change (table E (with_table E (fst (leave E ep0 (fst r))) (remove_cid E (table E (fst (leave E ep0 (fst r)))) cid)))
+        with (remove_cid E (table E (fst (leave E ep0 (fst r)))) cid).
+      rewrite L3, B. apply remove_fresh. intros Hin. apply Hlt in Hin. rewrite A in Hin. exact (Nat.lt_irrefl _ Hin).
+    - rewrite S3. change (ep_kops E (with_table E (fst (leave E ep0 (fst r))) (remove_cid E (table E (fst (leave E ep0 (fst r)))) cid)))
+        with (ep_kops E (fst (leave E ep0 (fst r)))).
+      rewrite L2, K1. rewrite app_nil_r. exact Hk.
+    - unfold send, leave. destruct (rek_push (inner P (fst r))); destruct (snd r); cbn; unfold create in H3;
+        destruct (new_core true _ _ _) as [[nc|e|] i1]; try discriminate H3; injection H3 as <- _ _; reflexivity.
   Qed.
   Lemma handle_def (ep : endpoint) cid (s : esa) m :
     handle E ep cid s m =
@@ -2289,13 +2413,23 @@ Section RegEndpoint.
 
   Lemma q_acquire ep my peer a b i : AllQ (table ep) -> AllQ (table (acquire E ep my peer a b i)).
   Proof.
-    intros Ha. rewrite acquire_eq. unfold acquire_target.
+    intros Ha. rewrite acquire_eq.
     match goal with |- context [find ?f (table ep)] => destruct (find f (table ep)) as [[cid s]|] eqn:Ef end.
     - apply q_do_call; [exact Ha|]. apply process_trigger_q. apply enter_Qe. eapply Ha. eapply find_pair_in. exact Ef.
     - destruct (find_conf E ep my peer) as [c|]; [|exact Ha].
       destruct (create E ep true (repeat 0%N 8) c my peer) as [[[ep0 cid] s]|] eqn:Ec; [|exact Ha].
       destruct (q_create _ _ _ _ _ _ _ _ _ Ec Ha) as [A0 Q0].
-      apply q_do_call; [exact A0|]. apply process_trigger_q. apply enter_Qe. exact Q0.
+      unfold acquire_fresh. cbv zeta.
+      set (r := process_trigger P (Endpoint.enter E ep0 s) (ep_now E ep0) (E_acquire a b i)).
+      destruct (acquire_drop_unstarted _).
+      + destruct (send_facts E (with_table E (fst (Endpoint.leave E ep0 (fst r)))
+                                  (remove_cid E (table (fst (Endpoint.leave E ep0 (fst r)))) cid)) (snd r)) as (S1 & _).
+        refine (eq_ind_r AllQ _ S1).
+        change (AllQ (remove_cid E (table (fst (Endpoint.leave E ep0 (fst r)))) cid)).
+        destruct (leave_facts E ep0 (fst r)) as (_ & _ & L3 & _).
+        refine (eq_ind_r (fun t => AllQ (remove_cid E t cid)) _ L3).
+        apply AllQ_remove. exact A0.
+      + apply q_do_call; [exact A0|]. apply process_trigger_q. apply enter_Qe. exact Q0.
   Qed.
   Lemma q_expire ep spi hard : AllQ (table ep) -> AllQ (table (expire E ep spi hard)).
   Proof.
@@ -2371,12 +2505,20 @@ Lemma EInv_unfold E (ep : endpoint E) sd :
    /\ (forall k, In k sd <-> In k (flat_map (fun x => tracked (inner (hdl_iface E) (snd x))) (table E ep)))
    /\ NoDup (flat_map (fun x => tracked (inner (hdl_iface E) (snd x))) (table E ep))
    /\ (forall c s, In (c, s) (table E ep) -> WF (inner (hdl_iface E) s))
-   /\ NoDup (map fst (table E ep)) /\ (forall c, In c (map fst (table E ep)) -> (c < next_cid E ep)%nat))
+   /\ NoDup (map fst (table E ep)) /\ (forall c, In c (map fst (table E ep)) -> (c < next_cid E ep)%nat)
+   /\ (forall c s, In (c, s) (table E ep) -> Spi4 (inner (hdl_iface E) s)))
   /\ (forall c s, In (c, s) (table E ep) ->
         forall n, new_sa (inner (hdl_iface E) s) = Some n ->
           my_addr n = my_addr (co (inner (hdl_iface E) s)) /\ peer_addr n = peer_addr (co (inner (hdl_iface E) s))
           /\ children n = []).
 Proof. reflexivity. Qed.
+(** in particular delete_child_sas never meets an outbound SPI that does not fit the netlink field *)
+Lemma einv_spi4 E (ep : endpoint E) sd c s ch :
+  EInv E ep sd -> In (c, s) (table E ep) -> In ch (children (co (inner (hdl_iface E) s))) -> length (c_out ch) = 4%nat.
+Proof.
+  intros [(_ & _ & _ & _ & _ & _ & H) _] Hin Hch. destruct (H c s Hin) as [H1 _].
+  rewrite Forall_forall in H1. exact (H1 ch Hch).
+Qed.
 (** every installed key is a key of a CHILD_SA of an IkeSa in the table: an IkeSa that was removed has no kernel SA *)
 Lemma einv_owner E (ep : endpoint E) sd k :
   EInv E ep sd -> In k sd -> exists c s, In (c, s) (table E ep) /\ In k (tracked (inner (hdl_iface E) s)).
@@ -2420,7 +2562,8 @@ Module EpExample.
     split.
     - unfold TInv. split; [nodup_tac|]. split; [intros k; vm_compute; tauto|]. split; [vm_compute; nodup_tac|].
       split; [intros c s [H|[]]; injection H as <- <-; apply WF_no_successor; reflexivity|].
-      split; [cbn; nodup_tac|]. intros c [<-|[]]. cbn. apply Nat.lt_succ_diag_r.
+      split; [cbn; nodup_tac|]. split; [intros c [<-|[]]; cbn; apply Nat.lt_succ_diag_r|].
+      intros c s [H|[]]. injection H as <- <-. split; [cbn; repeat constructor|intros n Hn; discriminate Hn].
     - intros c s [H|[]]. injection H as <- <-. intros n Hn. discriminate Hn.
   Qed.
   Definition dg (exch : Z) (id : Z) (ps : list payload) : datagram :=
@@ -2443,4 +2586,15 @@ Module EpExample.
   Proof. intros c s [H|[]]. injection H as <- <-. split; cbn; [discriminate|reflexivity]. Qed.
   Example hist2_inv : EInv E0 (run E0 ep_one hist2) (run_sad E0 ep_one own1 hist2).
   Proof. apply run_inv; [exact ep_one_inv|exact hist2_ok]. Qed.
+
+  (** an ACQUIRE for a policy index that is not configured: the initiator IkeSa created for it starts nothing and is
+      dropped again (the creation index stays consumed) *)
+  Definition hist3 : list step_in := [(100, [D_bytes [1;1;1;1;1;1;1;1]%N; D_num 1], Ev_acquire 10 20 ts0 ts1 99)].
+  Example hist3_ok : run_ok E0 ep_empty [] hist3.
+  Proof. ok_tac. Qed.
+  Example hist3_result :
+    table E0 (run E0 ep_empty hist3) = [] /\ next_cid E0 (run E0 ep_empty hist3) = 1%nat
+    /\ ep_kops E0 (run E0 ep_empty hist3) = [] /\ ep_sent E0 (run E0 ep_empty hist3) = []
+    /\ run_sad E0 ep_empty [] hist3 = [].
+  Proof. repeat split; vm_compute; reflexivity. Qed.
 End EpExample.
